@@ -539,6 +539,28 @@ def _build_roc(inp):
             if not ok:
                 pre.append(Issue("PROPFAIL", "roc-endpoints", f"roc({mode}=[0,.5,1]) -> "
                                  f"{e[1] if e[0] == 'exc' else (getattr(e[1], mode), e[1].thresholds)}", "roc/endpoints"))
+    # the same request on a badly scaled twin (means of the order of 1e6 standard deviations: calibrated scores with an offset):
+    # the thresholds mu + sigma z are rounded to the float spacing at mu, so the rates AT THE STORED THRESHOLDS differ visibly
+    # from the requested grid - the curve must report the former (Python-side relation between two real calls)
+    if r[0] == "ok" and mode in ("fnr", "fpr", "both"):
+        k_ = 10.0 ** (6 + len(pts) % 4)
+        twin = dict(dsd)
+        twin["mu_pos"] = (abs(mu_pos) + 1.0) * k_
+        twin["mu_neg"] = (abs(mu_neg) + 0.5) * k_ * (-1.0 if len(pts) % 2 else 1.0)
+        twin["sigma_pos"], twin["sigma_neg"] = sp / k_, sn / k_
+        dt_ = common.call(_make_ds, twin)
+        if dt_[0] == "ok":
+            rt = common.call(dt_[1].roc, **{k2: np.array(pts) for k2 in kw})
+            if rt[0] == "ok":
+                thr_t = np.asarray(rt[1].thresholds, dtype=float)
+                for nm_ in ("fnr", "fpr"):
+                    got = np.asarray(getattr(rt[1], nm_), dtype=float).reshape(-1)
+                    want = np.asarray(getattr(dt_[1], nm_)(thr_t), dtype=float).reshape(-1)
+                    if got.shape != want.shape or not np.allclose(got, want, rtol=0.0, atol=1e-9, equal_nan=True):
+                        pre.append(Issue("PROPFAIL", "roc-consistent", f"NormalDataset({twin}).roc({mode}={pts[:4]}): curve.{nm_} = {got.tolist()[:4]} "
+                                         f"but {nm_}(curve.thresholds) = {want.tolist()[:4]} (thresholds {thr_t.tolist()[:4]})",
+                                         "roc/consistent/badly-scaled"))
+                        break
     tb = _tables(zs, pts + [float(1 - Fraction(x)) for x in pts])
     ln = line("dsroc", **args, **tb)
     inp["_evals"] = 3 * len(pts) + 1
@@ -906,6 +928,13 @@ def _build_corrbern(inp):
         if o["spec.sum"] != "1":
             iss.append(Issue("DISAGREE", "corr-sum", f"{ctx}: model probabilities {fl} do not sum to 1", "corrbern/sum"))
         boundary = m is not None and min(abs(x) for x in probs) < Fraction(1, 10**12)
+        degenerate = p1 in (0.0, 1.0) or p2 in (0.0, 1.0)
+        if boundary and degenerate and m is not None and o["res"] == "ok" and r[0] == "exc":
+            # a marginal of exactly 0 or 1: sqrt(p1 p2 (1-p1)(1-p2)) = 0 exactly, every joint probability is one of 0, p, 1-p
+            # - nothing to round, the (degenerate but valid) distribution has to be sampled
+            iss.append(Issue("PROPFAIL", "corr-valid", f"{ctx}: raised {r[1]}: {r[2]} although the joint probabilities {fl} are a valid "
+                             f"distribution (a marginal of exactly 0 or 1 involves no rounding)", "corrbern/valid/degenerate-marginal"))
+            return iss
         if boundary:
             case.skipped += 1
         elif o["spec.valid"] != "1":
